@@ -52,7 +52,7 @@ type gen struct {
 // refable: kinds whose setting may be spelled as a reference to another setting.
 func refable(k Kind) bool {
 	switch k {
-	case KInt, KInt8, KUint16, KF64, KStr, KBool, KDur, KPInt, KPStr, KVInt, KVStr, KPI, KUStr, KUInt, KPDur:
+	case KInt, KInt8, KUint16, KF64, KStr, KBool, KDur, KPInt, KPStr, KVInt, KVStr, KPI, KUStr, KUInt, KPDur, KSInt, KSStr:
 		return true
 	}
 	return false
@@ -104,6 +104,9 @@ func (g *gen) genStruct(depth int) *Struct {
 		}
 		if k <= KStr && t.Chance(1, 5, "required") {
 			f.Required = true
+		}
+		if (k <= KDur || k == KSInt || k == KSStr) && !f.Required && t.Chance(1, 12, "ignored-field") {
+			f.Ignore = true
 		}
 		if boundable(k) && t.Chance(1, 3, "built-in-validator") {
 			switch {
@@ -248,8 +251,12 @@ func (sc *StructCase) refs(out map[string]interface{}) {
 func (fc *FieldCase) rawInput() interface{} {
 	n := fc.N
 	switch fc.F.Kind {
-	case KInt, KInt8, KUint16, KPInt, KVInt, KUInt, KPI, KUUint:
+	case KInt, KInt8, KUint16, KPInt, KVInt, KUInt, KPI, KUUint, KUVal:
 		return uint64(10 + n%80)
+	case KURe:
+		return map[string]interface{}{"p": uint64(10 + n%80), "q": "s" + itoa(n)}
+	case KIfPInner:
+		return map[string]interface{}{"x": uint64(10 + n%80), "y": "s" + itoa(n)}
 	case KU64:
 		if n%5 == 0 {
 			return uint64(math.MaxUint64)
@@ -366,6 +373,7 @@ func strp(s string) *string { return &s }
 
 // prefill sets the pre-filled value of the struct v (addressable).
 func (sc *StructCase) prefill(v reflect.Value) {
+	sharedInts := map[int64]*int{}
 	for i, fc := range sc.Fields {
 		f := v.Field(i)
 		switch fc.F.Kind {
@@ -422,7 +430,14 @@ func (sc *StructCase) prefill(v reflect.Value) {
 			d := time.Duration(num) * time.Hour
 			f.Set(reflect.ValueOf(&d))
 		case KPInt:
-			f.Set(reflect.ValueOf(intp(int(num))))
+			// fields of one struct pre-filled with the same default share the pointer
+			if p, ok := sharedInts[num]; ok {
+				f.Set(reflect.ValueOf(p))
+			} else {
+				p := intp(int(num))
+				sharedInts[num] = p
+				f.Set(reflect.ValueOf(p))
+			}
 		case KPStr:
 			f.Set(reflect.ValueOf(strp(str)))
 		case KVInt:
@@ -465,6 +480,12 @@ func (sc *StructCase) prefill(v reflect.Value) {
 			f.Set(reflect.ValueOf(&[]int{1, 2}))
 		case KUUint:
 			f.Set(reflect.ValueOf(UUint{U: 5}))
+		case KUVal:
+			f.Set(reflect.ValueOf(UVal{V: 5}))
+		case KURe:
+			f.Set(reflect.ValueOf(URe{P: 5, Q: "old"}))
+		case KIfPInner:
+			f.Set(reflect.ValueOf(&Inner{X: 5, Y: "old", hidden: 3, Ign: "keep"}))
 		case KSUStr:
 			f.Set(reflect.ValueOf([]UStr{{S: "o1"}, {S: "o2"}}))
 		case KRegex:
@@ -550,6 +571,9 @@ func (sc *StructCase) apply(v reflect.Value, present bool) {
 	for i, fc := range sc.Fields {
 		f := v.Field(i)
 		mentioned := present && fc.Mention
+		if fc.F.Ignore {
+			continue // whatever the config says
+		}
 		switch fc.F.Kind {
 		case KInline:
 			fc.Sub.apply(f, present)
@@ -661,6 +685,22 @@ func (sc *StructCase) apply(v reflect.Value, present bool) {
 			f.Set(reflect.ValueOf(&d))
 		case KUUint:
 			f.Set(reflect.ValueOf(UUint{U: in.(uint64) + 3}))
+		case KUVal:
+			f.Set(reflect.ValueOf(UVal{V: int64(in.(uint64)) + 1000}))
+		case KURe:
+			m := in.(map[string]interface{})
+			f.Set(reflect.ValueOf(URe{P: int(m["p"].(uint64)), Q: m["q"].(string)}))
+		case KIfPInner:
+			m := in.(map[string]interface{})
+			if f.IsNil() {
+				// nothing there: the generic form of the setting
+				f.Set(reflect.ValueOf(in))
+			} else {
+				// the pointer the interface holds stays, what it points to is updated
+				cur := *f.Elem().Interface().(*Inner)
+				cur.X, cur.Y = VInt(m["x"].(uint64)), m["y"].(string)
+				f.Set(reflect.ValueOf(&cur))
+			}
 		case KSUStr:
 			var l []UStr
 			for _, x := range in.([]interface{}) {
@@ -1000,6 +1040,12 @@ func diffValues(path string, got, want reflect.Value) string {
 			}
 			return ""
 		}
+		if got.Elem().Type() != want.Elem().Type() {
+			return fmt.Sprintf("%s: holds a %v, expected a %v", path, got.Elem().Type(), want.Elem().Type())
+		}
+		if k := got.Elem().Kind(); k == reflect.Ptr || k == reflect.Struct {
+			return diffValues(path, got.Elem(), want.Elem())
+		}
 		g, w := model.CanonValue(normIface(got.Elem())), model.CanonValue(normIface(want.Elem()))
 		if g != w {
 			return fmt.Sprintf("%s: %s, expected %s", path, g, w)
@@ -1057,6 +1103,12 @@ func describeType(s *Struct, pre string) string {
 		}
 		if f.Required {
 			d += ",required"
+		}
+		if f.Ignore {
+			d += ",ignore"
+		}
+		if f.Bound != "" {
+			d += "," + f.Bound
 		}
 		if f.Sub != nil {
 			d += describeType(f.Sub, "")
